@@ -385,16 +385,29 @@ def run(ctx, repo, tier):
         ctx.inconclusive("PAIRIO", "C20.csv.index", "csv branch not recognised", le.where, witness=f"{len(csv)} plain read_csv calls")
     # legends
     rng = [n for n in ast.walk(gc.node) if isinstance(n, ast.For) and isinstance(n.iter, ast.Call) and isinstance(n.iter.func, ast.Name) and n.iter.func.id == "range"]
+    # the loop over the series index is the range loop whose variable names the series in a legend prefix; a range loop that merely counts
+    # lines (for _ in range(n_header_lines)) is not it
+    rng_series = [n for n in rng if isinstance(n.target, ast.Name) and any(
+        isinstance(c_, ast.JoinedStr) and any(isinstance(x_, ast.Name) and x_.id == n.target.id for x_ in ast.walk(c_)) for c_ in ast.walk(n))]
+    if rng and not rng_series and any(isinstance(c_, ast.JoinedStr) and "legend" in src(c_) for n in rng for c_ in ast.walk(n)):
+        rng_series = rng          # a legend f-string that does not use the loop variable: judged below
+    rng = rng_series
     if not rng:
         # the prefixes may be prepared once:  prefixes = tuple(f"@ s{i} legend" for i in range(0, 10)) ; line.startswith(prefixes)
         class _R:          # adapter with the two attributes the rule reads (iter, and the subtree searched for startswith / append)
             pass
-        mod_level = [st_.value for st_ in gc.module.tree.body if isinstance(st_, ast.Assign) and len(st_.targets) == 1 and
-                     isinstance(st_.targets[0], ast.Name) and any(isinstance(x, ast.Name) and x.id == st_.targets[0].id for x in ast.walk(gc.node))]
+        mod_level = [st_.value for st_ in list(gc.module.tree.body) + list(er.node.body) if isinstance(st_, ast.Assign) and len(st_.targets) == 1 and
+                     isinstance(st_.targets[0], ast.Name) and any((isinstance(x, ast.Name) and x.id == st_.targets[0].id) or
+                                                                    (isinstance(x, ast.Attribute) and x.attr == st_.targets[0].id)
+                                                                    for x in ast.walk(gc.node))]
         for comp in [n for root_ in [gc.node] + mod_level for n in ast.walk(root_) if isinstance(n, (ast.GeneratorExp, ast.ListComp)) and isinstance(n.elt, ast.JoinedStr)]:
             g0 = comp.generators[0]
             if isinstance(g0.iter, ast.Call) and isinstance(g0.iter.func, ast.Name) and g0.iter.func.id == "range" and not g0.ifs:
-                lines = [n for n in ast.walk(gc.node) if isinstance(n, ast.For) and not (isinstance(n.iter, ast.Call) and src(n.iter.func) == "range")]
+                # the loop over the lines is the one whose body tests the prepared prefixes
+                lines = [n for n in ast.walk(gc.node) if isinstance(n, ast.For) and any(
+                    isinstance(c_, ast.Call) and isinstance(c_.func, ast.Attribute) and c_.func.attr == "startswith" and c_.args and
+                    isinstance(c_.args[0], (ast.Name, ast.Attribute)) for c_ in ast.walk(n))]
+                lines = [n for n in lines if not any(m is not n and m in lines for m in ast.walk(n))] or lines
                 if lines:
                     r_ = ast.For(target=g0.target, iter=g0.iter, body=lines[0].body, orelse=[])
                     # the startswith argument of the rule below is the f-string itself
@@ -424,7 +437,7 @@ def run(ctx, repo, tier):
         fstr = sw[0].args[0] if sw else getattr(rng[0], "_fstring", None)
         if fstr is not None and not sw:
             sw = [n for n in ast.walk(rng[0]) if isinstance(n, ast.Call) and isinstance(n.func, ast.Attribute) and n.func.attr == "startswith" and n.args
-                  and isinstance(n.args[0], ast.Name)]
+                  and isinstance(n.args[0], (ast.Name, ast.Attribute))]
         if fstr is not None:
             parts = [(v.value if isinstance(v, ast.Constant) else "{}") for v in fstr.values]
             pat = "".join(parts)
